@@ -5,8 +5,10 @@ LEVEL = "other"
 TECHNIQUE = "bounded contract check (CBMC): String_Show composed with String_Look over an abstract character stream for every byte value; the numeric readers of the real scan_from_with against a sink that stores with the width the conversion names"
 LEVEL_TEXT = ("String: for strings of length 0 and 1 with symbolic bytes (every value except NUL) the text String_Show writes is read back by String_Look into an equal string, consuming "
               "exactly what was written. Int and Float: the real scan_from_with runs with the reader's conversion against a libc model that stores with the width the conversion names, so the value "
-              "read back must equal the value written over the whole int64 range, and for Float to within the printed precision. What vsscanf/vfscanf do character by character is libc's (assumed).")
-NOTE = "libc scanning assumed; String length <= 1 (per-character lemma; composition over longer strings is not machine-checked); the abstract stream stands for both a String and a File source"
+              "read back must equal the value written over the whole int64 range, and for Float to within the printed precision. The real Int_Show / Float_Show are composed with the real Int_Look / Float_Look "
+              "through the real print_to_with and scan_from_with (the writer's sink prints, and the reader's sink stores, with the width the conversion names), and print_to followed by scan_from with the same "
+              "integer specification (d i hd hhd ld li lld jd u x o lu lx hu) gives back every value the specification's C type holds. What vsscanf/vfscanf do character by character is libc's (assumed).")
+NOTE = "libc scanning assumed (LP64 widths); floating specifications are read with the C meaning of the reader's specification (%f is a float, %lf a double); String length <= 1 (per-character lemma; composition over longer strings is not machine-checked); the abstract stream stands for both a String and a File source"
 EXPLANATION = LEVEL_TEXT
 TRUSTED = ["libc vsscanf/vfscanf store with the width the conversion names and report the consumed length through %n"]
 
